@@ -412,7 +412,7 @@ fn check_analyses(seed: u64) -> i32 {
         let ab = Sporadic::new(d(t0), d(j0));
         let tua_rbf = RBF::new(ab, Scalar::new(s(c0)));
         let hps: Vec<_> = hp.iter().map(|(t, j, c)| RBF::new(Sporadic::new(d(*t), d(*j)), Scalar::new(s(*c)))).collect();
-        let desc = format!("{{\"tua\": [{}, {}, {}], \"hp\": {:?}, \"blocking\": {}, \"last_np_segment\": {}, \"limit\": {}}}", t0, j0, c0, hp, b, last, limit);
+        let mut desc = format!("{{\"tua\": [{}, {}, {}], \"hp\": {:?}, \"blocking\": {}, \"last_np_segment\": {}, \"limit\": {}}}", t0, j0, c0, hp, b, last, limit);
         macro_rules! cmp { ($name:expr, $got:expr, $exp:expr) => {{
             let got = view(&guarded(|| $got)); let exp = $exp;
             if got != Ok(exp) { return fail($name, desc.clone(), format!("{:?}", got), format!("{:?}", exp)); }
@@ -445,8 +445,33 @@ fn check_analyses(seed: u64) -> i32 {
             }
             Some(best)
         })();
-        let desc = format!("{{\"tua\": [{}, {}, {}, {}], \"others\": {:?}, \"deadlines\": {:?}, \"limit\": {}}}", t0, j0, c0, dl0, hp, dls, limit);
+        desc = format!("{{\"tua\": [{}, {}, {}, {}], \"others\": {:?}, \"deadlines\": {:?}, \"limit\": {}}}", t0, j0, c0, dl0, hp, dls, limit);
         cmp!("edf::fully_preemptive::dedicated_uniproc_rta", edf::fully_preemptive::dedicated_uniproc_rta(&edf::fully_preemptive::Task { rbf: &tua_rbf, deadline: d(dl0) }, &others, d(limit)), exp_edf);
+        // EDF with non-preemptive segments: offset-dependent blocking, remaining cost after the run-to-completion threshold
+        let segs: Vec<u64> = hp.iter().map(|(_, _, c)| 1 + r.below(*c)).collect();
+        let edfx = |segs: &Vec<u64>, rem: u64| -> Option<u64> {
+            let n = dls.len();
+            let l = dscan(limit, &|x| (0..n).map(|i| rbf_o(i, x)).sum::<u64>() + tua_f(x))?;
+            let mut best = 0u64;
+            for a in 0..l {
+                let blk = (0..n).filter(|&i| dls[i] > dl0 + a && rbf_o(i, 1) > 0).map(|i| segs[i].saturating_sub(1)).max().unwrap_or(0);
+                let af = dscan(limit, &|x| blk + (tua_f(a + 1) - rem) + (0..n).map(|i| rbf_o(i, x.min((a + 1 + dl0).saturating_sub(dls[i])))).sum::<u64>())?;
+                best = best.max(af.saturating_sub(a) + rem);
+            }
+            Some(best)
+        };
+        desc = format!("{{\"tua\": [{}, {}, {}, {}], \"last_np_segment\": {}, \"others\": {:?}, \"deadlines\": {:?}, \"max_np_segments\": {:?}, \"limit\": {}}}", t0, j0, c0, dl0, last, hp, dls, segs, limit);
+        let fl_others: Vec<_> = hps.iter().zip(dls.iter()).zip(segs.iter()).map(|((rb, dl), sg)| edf::floating_nonpreemptive::InterferingTask { rbf: rb, deadline: d(*dl), max_np_segment: s(*sg) }).collect();
+        cmp!("edf::floating_nonpreemptive::dedicated_uniproc_rta",
+             edf::floating_nonpreemptive::dedicated_uniproc_rta(&edf::floating_nonpreemptive::TaskUnderAnalysis { rbf: &tua_rbf, deadline: d(dl0) }, &fl_others, d(limit)), edfx(&segs, 0));
+        let lp_others: Vec<_> = hps.iter().zip(dls.iter()).zip(segs.iter()).map(|((rb, dl), sg)| edf::limited_preemptive::InterferingTask { rbf: rb, deadline: d(*dl), max_np_segment: s(*sg) }).collect();
+        cmp!("edf::limited_preemptive::dedicated_uniproc_rta",
+             edf::limited_preemptive::dedicated_uniproc_rta(&edf::limited_preemptive::TaskUnderAnalysis { wcet: Scalar::new(s(c0)), arrivals: &ab, deadline: d(dl0), last_np_segment: s(last) }, &lp_others, d(limit)), edfx(&segs, last - 1));
+        let np_abs: Vec<Sporadic> = hp.iter().map(|(t, j, _)| Sporadic::new(d(*t), d(*j))).collect();
+        let np_others: Vec<_> = np_abs.iter().zip(hp.iter()).zip(dls.iter()).map(|((ab, (_, _, c)), dl)| edf::fully_nonpreemptive::Task { wcet: Scalar::new(s(*c)), arrivals: ab, deadline: d(*dl) }).collect();
+        let full: Vec<u64> = hp.iter().map(|(_, _, c)| *c).collect();
+        cmp!("edf::fully_nonpreemptive::dedicated_uniproc_rta",
+             edf::fully_nonpreemptive::dedicated_uniproc_rta(&edf::fully_nonpreemptive::Task { wcet: Scalar::new(s(c0)), arrivals: &ab, deadline: d(dl0) }, &np_others, d(limit)), edfx(&full, c0 - 1));
     }
     0
 }
